@@ -79,7 +79,7 @@ def child(job_path, result_path):
     w = PfWorld(job['plan'], res, log)
     w.root, w.ini = job['root'], job['ini']
     w.in_img, w.in_xml, w.in_logits = job['in_img'], job['in_xml'], job['in_logits']
-    w.chars = content.charset(job['plan']['cfg']['nchars'], job['plan']['cfg'].get('space', False))
+    w.chars = content.charset(job['plan']['cfg']['nchars'], job['plan']['cfg'].get('space', False), job['plan']['cfg'].get('charset', 'ascii'))
     w.clock.now, w.clock.reads = job['clock']['now'], job['clock']['reads']
     w.install()
     if job['real_pool']:
